@@ -48,3 +48,25 @@ pub fn cases(ops: &str) -> Vec<(Vec<String>, Vec<String>)> {
     }
     out
 }
+
+/// A reader that hands the bytes out in short reads (1, 2, 3, 1, 2, 3 ... at a time): what a framed or
+/// ring-buffer transport may do. Decoding must not depend on how the bytes are chunked.
+pub struct Dribble<'a> {
+    pub data: &'a [u8],
+    pub pos: usize,
+    pub step: usize,
+}
+impl<'a> Dribble<'a> {
+    pub fn new(data: &'a [u8]) -> Self {
+        Dribble { data, pos: 0, step: 0 }
+    }
+}
+impl<'a> std::io::Read for Dribble<'a> {
+    fn read(&mut self, buf: &mut [u8]) -> std::io::Result<usize> {
+        self.step = self.step % 3 + 1;
+        let n = self.step.min(buf.len()).min(self.data.len() - self.pos);
+        buf[..n].copy_from_slice(&self.data[self.pos..self.pos + n]);
+        self.pos += n;
+        Ok(n)
+    }
+}
